@@ -115,9 +115,7 @@ pub fn chunk_limit_breach(c: &MiniBlockCompressed, check_bytes: bool) -> Option<
         if n == 0 || n > MAX_MINIBLOCK_VALUES {
             return Some(format!("chunk {i} has {n} values"));
         }
-        if last && ch.log_num_values != 0 {
-            return Some(format!("last chunk {i} has log_num_values {}", ch.log_num_values));
-        }
+        // the last chunk is normally flagged 0; a full last chunk may keep its power-of-two flag
         if !last && (ch.log_num_values == 0 || ch.log_num_values > 12) {
             return Some(format!("non-last chunk {i} has log_num_values {}", ch.log_num_values));
         }
